@@ -940,6 +940,12 @@ def run(tier='quick'):
     if len(n_read_sites) < 60:
         chk.fail_broken('only %d read statement sites reachable from observers (floor 60)'
                         % len(n_read_sites))
+    E7 = chk.rule('E7', 'releasing the handles of a library that was only observed changes nothing: no user-written destructor '
+                        'of the repository (the transaction guard excepted) reaches a statement with an effect on the '
+                        'database (PRAGMA optimize, VACUUM, a checkpoint, a clean-up DELETE) or a file-system write',
+                  floor=1)
+    from . import extra
+    extra.destructors_silent(prog, cg, eff, chk, E7)
     return chk.finish(
         'effect analysis over the resolved call graph of all %d translation units: %d observing and '
         '%d mutating public operations classified from the headers; for each observer the set of SQL '
